@@ -45,7 +45,7 @@ Definition subvec (v : vec) (start len : Z) : vec := firstn (Z.to_nat len) (skip
 Definition vsub (a b : vec) : vec := map (fun p => F32.sub (fst p) (snd p)) (combine a b).
 
 (** encode: per subspace the FIRST strict arg-min codeword, stored as uint8 *)
-Definition encode (p : params) (books : list (list vec)) (v : vec) : list Z :=
+Definition pq_encode (p : params) (books : list (list vec)) (v : vec) : list Z :=
   map (fun mb => let '(m, book) := mb in
                  let sv := subvec v (m * p_dsub p) (p_dsub p) in
                  (nearest L2Sq sv book) mod 256)
@@ -69,8 +69,8 @@ Definition vadd_op (p : params) (s : vstate) (id : Z) (v : vec) : vstate * Z :=
            let li := if uses_lists (p_kind p) then nearest (p_metric p) w (st_centroids s) else 0 in
            let code :=
                match p_kind p with
-               | KPQ => encode p (st_codebooks s) w
-               | KIVFPQ => encode p (st_codebooks s) (vsub w (nthv (st_centroids s) li))
+               | KPQ => pq_encode p (st_codebooks s) w
+               | KIVFPQ => pq_encode p (st_codebooks s) (vsub w (nthv (st_centroids s) li))
                | _ => []
                end in
            let e := {| e_id := id; e_vec := w; e_code := code |} in
